@@ -6,6 +6,11 @@ ALL = ["C%02d" % i for i in range(1, 21)]
 
 # property -> dict(level, text, note, technique, engine, design_ref)
 CLAIMED = {
+  "C16": dict(level="exploration", engine="E1-CLI",
+    text="Bounded-exhaustive exploration of the real binary's output: every file content that is a sequence of <= 3 (thorough <= 4) line kinds from {ASCII statement, multi-byte inside the match, multi-byte before the match, CRLF line, 600-column line, blank, non-matching, two-line match, multi-argument calls, ...}, with/without final newline, x 127 output modes (run foo($A) / foo($$$ARGS) / -r rewrite x --json=pretty|stream|compact x -A/-B in {0,1,2}^2 and -C 1|2; scan -r with string and expandEnd fix x 3 styles; plain report --color never --heading never x the same contexts), plus every directory of <= 3 (thorough 4) files over {1 match, 2 matches, no match}; every JSON record (text, range, lines, charCount), meta-variable node, replacementOffsets, JSON well-formedness and every path:line:text entry is compared with a reference computed from the file bytes. Quick: 2 712 CLI runs, 353 010 records, 1.4e6 positions.",
+    note="JavaScript only; where the statement is silent (whether the CR of a CRLF terminator belongs to the line text; whether the empty string after the final newline is a context line) both readings are accepted and counted in the evidence; plain-report rows that are not path:line:text are not judged.",
+    technique="bounded-exhaustive enumeration of file contents x output modes on the real binary, compared with a byte-level reference model (ref_position / ref_lines)",
+    design_ref="DESIGN.md §3 C16"),
   "C13": dict(level="exploration", engine="E4",
     text="Bounded-exhaustive order enumeration: 10 small projects, each isolating one order-sensitive mechanism (utils through composite rules, utils through relational rules/stopBy/nthChild.ofRule, chained transforms, constraints x3, rewriters, rule files + utilDirs, languageGlobs x2); ALL permutations of the textual key/list/file-name order (quick 50, thorough 162) x owned hash seeds 0..S (quick 9, thorough 49) x 2 launches (-j 1 / default threads); in every cell scan --json=stream, test --update-all + test, scan --update-all run on the real binary (quick 3 386 / thorough 61 546 CLI runs); the canonical finding multiset (rule id, file, byte range, text, message, severity, note, replacement, offsets), exit codes, snapshot bytes and sources after -U must be identical across each project's whole grid.",
     note="Hash seeds are owned through the LD_PRELOAD getrandom shim (a failing cell replays identically); the evidence reports how many distinct raw stdout orderings the seed sweep produced per project; metaVariables ranges in JSON records are counted, not judged; thread scheduling beyond -j 1 vs default is C17's subject.",
